@@ -178,9 +178,15 @@ class Repo:
         for m_ in self.modules.values():
             m_.repo = self
         self._fold_named_constants()
+        self._getter_lambdas()
+        self._bool_identity_tests()
+        self._except_sentinels()
+        self._split_parallel_assignments()
+        self._running_extrema()
         self._augment_assignments()
         self._push_negations()
         self._keyerror_tries()
+        self._get_is_none()
         self._scalarise_records()
         self._truthy_defaults()
         self._positional_calls()
@@ -253,6 +259,195 @@ class Repo:
             if d is not None:
                 out.setdefault(p_.arg, d)
         return out
+
+    def _bool_identity_tests(self):
+        """`f(x) is False` / `f(x) is not True` is written `not f(x)`, `f(x) is True` / `is not False` is written `f(x)`,
+        when f is a program function every return of which is a truth value (a bool constant, a comparison, not / and /
+        or of such, any() / all()): in place."""
+
+        def boolish(e, depth=0):
+            if isinstance(e, ast.Constant):
+                return isinstance(e.value, bool)
+            if isinstance(e, ast.Compare):
+                return True
+            if isinstance(e, ast.UnaryOp) and isinstance(e.op, ast.Not):
+                return True
+            if isinstance(e, ast.BoolOp):
+                return all(boolish(v, depth) for v in e.values)
+            if isinstance(e, ast.Call) and isinstance(e.func, ast.Name) and e.func.id in ("any", "all", "bool", "isinstance"):
+                return True
+            return False
+
+        def returns_bool(fn):
+            rets = [r for r in walk_own(fn.node) if isinstance(r, ast.Return)]
+            return bool(rets) and all(r.value is not None and boolish(r.value) for r in rets) and not _falls_off(fn.node.body)
+
+        def _falls_off(body):
+            if not body:
+                return True
+            last = body[-1]
+            if isinstance(last, (ast.Return, ast.Raise)):
+                return False
+            if isinstance(last, ast.If):
+                return _falls_off(last.body) or _falls_off(last.orelse)
+            return True
+
+        repo = self
+        for mod in self.modules.values():
+            for f in mod.funcs.values():
+                if not any(isinstance(x, ast.Compare) and any(isinstance(o, (ast.Is, ast.IsNot)) for o in x.ops) and isinstance(x.comparators[0], ast.Constant) and isinstance(x.comparators[0].value, bool) for x in ast.walk(f.node)):
+                    continue
+
+                class T(ast.NodeTransformer):
+                    def visit_Compare(self, c):
+                        self.generic_visit(c)
+                        if len(c.ops) == 1 and isinstance(c.ops[0], (ast.Is, ast.IsNot)) and isinstance(c.comparators[0], ast.Constant) and isinstance(c.comparators[0].value, bool) and isinstance(c.left, ast.Call):
+                            callee = repo.resolve_call(f, c.left)
+                            if callee is not None and returns_bool(callee):
+                                positive = c.comparators[0].value == isinstance(c.ops[0], ast.Is)
+                                return c.left if positive else ast.copy_location(ast.UnaryOp(op=ast.Not(), operand=c.left), c)
+                        return c
+
+                T().visit(f.node)
+                ast.fix_missing_locations(f.node)
+
+    def _except_sentinels(self):
+        """A private marker that only carries `the call raised` from a handler to the statement after it
+            try: x = CALL                      try: x = CALL
+            except E: x = MARK        ->       except E: A
+            if x is MARK: A                    else: B
+            else: B                  (MARK a module-level or local `object()`; x read nowhere in A)
+        is written as the try / except / else it stands for (in place)."""
+        for mod in self.modules.values():
+            marks = {k for k, v in mod.consts.items() if isinstance(v, ast.Call) and norm(v.func) == "object" and not v.args}
+            for f in mod.funcs.values():
+                if not any(isinstance(x, ast.Try) for x in ast.walk(f.node)):
+                    continue
+                local_marks = {st.targets[0].id for st in ast.walk(f.node) if isinstance(st, ast.Assign) and len(st.targets) == 1 and isinstance(st.targets[0], ast.Name) and isinstance(st.value, ast.Call) and norm(st.value.func) == "object" and not st.value.args}
+                ms = marks | local_marks
+                if not ms:
+                    continue
+                for parent in ast.walk(f.node):
+                    for fld in ("body", "orelse", "finalbody"):
+                        lst = getattr(parent, fld, None)
+                        if not (isinstance(lst, list) and lst and isinstance(lst[0], ast.stmt)):
+                            continue
+                        i = 0
+                        while i + 1 < len(lst):
+                            t, nx = lst[i], lst[i + 1]
+                            i += 1
+                            if not (isinstance(t, ast.Try) and len(t.body) == 1 and len(t.handlers) == 1 and not t.orelse and not t.finalbody and isinstance(nx, ast.If)):
+                                continue
+                            a, h = t.body[0], t.handlers[0]
+                            if not (isinstance(a, ast.Assign) and len(a.targets) == 1 and isinstance(a.targets[0], ast.Name) and len(h.body) == 1 and isinstance(h.body[0], ast.Assign) and norm(h.body[0].targets[0]) == a.targets[0].id and isinstance(h.body[0].value, ast.Name) and h.body[0].value.id in ms):
+                                continue
+                            x, mk = a.targets[0].id, h.body[0].value.id
+                            tst = nx.test
+                            if not (isinstance(tst, ast.Compare) and len(tst.ops) == 1 and isinstance(tst.ops[0], (ast.Is, ast.IsNot)) and {norm(tst.left), norm(tst.comparators[0])} == {x, mk}):
+                                continue
+                            hit, miss = (nx.body, nx.orelse) if isinstance(tst.ops[0], ast.Is) else (nx.orelse, nx.body)
+                            if any(isinstance(n_, ast.Name) and n_.id == x for st in hit for n_ in ast.walk(st)):
+                                continue
+                            h.body = hit or [ast.copy_location(ast.Pass(), h)]
+                            t.orelse = miss
+                            del lst[i]
+                            ast.fix_missing_locations(t)
+
+    def _getter_lambdas(self):
+        """`operator.itemgetter(2)` / `itemgetter(1, 2)` / `attrgetter("start")` with constant arguments are written as the
+        lambdas they stand for (`lambda item: item[2]`, `lambda item: (item[1], item[2])`, `lambda item: item.start`), in place."""
+
+        class T(ast.NodeTransformer):
+            def visit_Call(self, c):
+                self.generic_visit(c)
+                fn = norm(c.func)
+                if fn in ("operator.itemgetter", "itemgetter") and c.args and not c.keywords and all(isinstance(a, ast.Constant) and isinstance(a.value, (int, str)) for a in c.args):
+                    subs = [ast.Subscript(value=ast.Name(id="item", ctx=ast.Load()), slice=ast.Constant(value=a.value), ctx=ast.Load()) for a in c.args]
+                elif fn in ("operator.attrgetter", "attrgetter") and c.args and not c.keywords and all(isinstance(a, ast.Constant) and isinstance(a.value, str) and a.value.isidentifier() for a in c.args):
+                    subs = [ast.Attribute(value=ast.Name(id="item", ctx=ast.Load()), attr=a.value, ctx=ast.Load()) for a in c.args]
+                else:
+                    return c
+                body = subs[0] if len(subs) == 1 else ast.Tuple(elts=subs, ctx=ast.Load())
+                lam = ast.Lambda(args=ast.arguments(posonlyargs=[], args=[ast.arg(arg="item")], kwonlyargs=[], kw_defaults=[], defaults=[]), body=body)
+                return ast.fix_missing_locations(ast.copy_location(lam, c))
+
+        for mod in self.modules.values():
+            for f in mod.funcs.values():
+                if any(isinstance(x, (ast.Name, ast.Attribute)) and norm(x).split(".")[-1] in ("itemgetter", "attrgetter") for x in ast.walk(f.node)):
+                    T().visit(f.node)
+
+    def _split_parallel_assignments(self):
+        """`a, b = e1, e2` with plain names on the left, where no name bound earlier in the list is read by a later
+        expression (so not a swap), is written `a = e1; b = e2` (in place): the same bindings in the same order."""
+        for mod in self.modules.values():
+            for f in mod.funcs.values():
+                for parent in ast.walk(f.node):
+                    for fld in ("body", "orelse", "finalbody"):
+                        lst = getattr(parent, fld, None)
+                        if not (isinstance(lst, list) and lst and isinstance(lst[0], ast.stmt)):
+                            continue
+                        i = 0
+                        while i < len(lst):
+                            st = lst[i]
+                            if isinstance(st, ast.Assign) and len(st.targets) == 1 and isinstance(st.targets[0], ast.Tuple) and isinstance(st.value, ast.Tuple) and len(st.targets[0].elts) == len(st.value.elts) and all(isinstance(t, ast.Name) for t in st.targets[0].elts) and not any(isinstance(v, ast.Starred) for v in st.value.elts):
+                                names = [t.id for t in st.targets[0].elts]
+                                safe = len(set(names)) == len(names)
+                                for j, v in enumerate(st.value.elts):
+                                    reads = {x.id for x in ast.walk(v) if isinstance(x, ast.Name)}
+                                    if reads & set(names[:j]):
+                                        safe = False
+                                    if any(isinstance(x, (ast.Call, ast.NamedExpr, ast.Yield, ast.Await)) for x in ast.walk(v)) and j > 0 and False:
+                                        safe = False
+                                if safe:
+                                    new = [ast.copy_location(ast.Assign(targets=[t], value=v, lineno=st.lineno), st) for t, v in zip(st.targets[0].elts, st.value.elts)]
+                                    lst[i : i + 1] = new
+                                    i += len(new)
+                                    continue
+                            i += 1
+
+    def _running_extrema(self):
+        """`x = max(x, v)` (x a name or a pure access path, v a pure expression) is written `if x < v: x = v`, and
+        `x = min(x, v)` is written `if x > v: x = v` (in place): max / min return their first argument on a tie, as the
+        guarded assignment keeps x."""
+
+        def pure_path(e):
+            while isinstance(e, (ast.Attribute, ast.Subscript)):
+                if isinstance(e, ast.Subscript) and not all(isinstance(x, (ast.Constant, ast.Name, ast.Attribute, ast.Load)) for x in ast.walk(e.slice)):
+                    return False
+                e = e.value
+            return isinstance(e, ast.Name)
+
+        def pure_value(e):
+            for x in ast.walk(e):
+                if isinstance(x, ast.Call) and not (isinstance(x.func, ast.Name) and x.func.id in ("float", "int", "len", "abs", "round")):
+                    return False
+                if isinstance(x, (ast.NamedExpr, ast.Await, ast.Yield, ast.YieldFrom, ast.Lambda, ast.ListComp, ast.GeneratorExp, ast.DictComp, ast.SetComp)):
+                    return False
+            return True
+
+        for mod in self.modules.values():
+            for f in mod.funcs.values():
+                if not any(isinstance(x, ast.Call) and isinstance(x.func, ast.Name) and x.func.id in ("max", "min") for x in ast.walk(f.node)):
+                    continue
+                for parent in ast.walk(f.node):
+                    for fld in ("body", "orelse", "finalbody"):
+                        lst = getattr(parent, fld, None)
+                        if not (isinstance(lst, list) and lst and isinstance(lst[0], ast.stmt)):
+                            continue
+                        for i, st in enumerate(lst):
+                            if isinstance(st, ast.Assign) and len(st.targets) == 1 and pure_path(st.targets[0]) and isinstance(st.value, ast.Call) and isinstance(st.value.func, ast.Name) and st.value.func.id in ("max", "min") and len(st.value.args) == 2 and not st.value.keywords:
+                                a0, v = st.value.args
+                                if norm(a0) == norm(st.targets[0]) and pure_value(v) and norm(st.targets[0]) not in norm(v):
+                                    import copy as _copy
+
+                                    left = _copy.deepcopy(st.targets[0])
+                                    for x in ast.walk(left):
+                                        if isinstance(x, (ast.Name, ast.Attribute, ast.Subscript)):
+                                            x.ctx = ast.Load()
+                                    op = ast.Lt() if st.value.func.id == "max" else ast.Gt()
+                                    test = ast.Compare(left=left, ops=[op], comparators=[_copy.deepcopy(v)])
+                                    new = ast.If(test=test, body=[ast.Assign(targets=[st.targets[0]], value=v, lineno=st.lineno)], orelse=[])
+                                    lst[i] = ast.fix_missing_locations(ast.copy_location(new, st))
 
     def _augment_assignments(self):
         """`x = x + e` (also - * / //, x a name or a pure access path, e not a container display) is written `x += e`
@@ -365,6 +560,44 @@ class Repo:
                                 continue
                             test = ast.Compare(left=key, ops=[ast.NotIn()], comparators=[ast.Name(id=a.value.value.id, ctx=ast.Load())])
                             lst[i] = ast.fix_missing_locations(ast.copy_location(ast.If(test=test, body=h.body, orelse=([] if bare else [a]) + st.orelse), st))
+
+    def _get_is_none(self):
+        """`D.get(K) is None` / `D.get(K) is not None` over a local plain dict D (bound to `{}` / `dict()` in the function,
+        never stored a literal None) and a pure key K is written `K not in D` / `K in D` (in place)."""
+        for mod in self.modules.values():
+            for f in mod.funcs.values():
+                if not any(isinstance(x, ast.Attribute) and x.attr == "get" for x in ast.walk(f.node)):
+                    continue
+                plain = set()
+                for st in walk_stmts(f.node.body):
+                    if isinstance(st, ast.Assign) and len(st.targets) == 1 and isinstance(st.targets[0], ast.Name):
+                        v = st.value
+                        if (isinstance(v, ast.Dict) and not v.keys) or (isinstance(v, ast.Call) and isinstance(v.func, ast.Name) and v.func.id == "dict" and not v.args and not v.keywords):
+                            plain.add(st.targets[0].id)
+                        elif st.targets[0].id in plain:
+                            plain.discard(st.targets[0].id)
+                    if isinstance(st, ast.Assign) and isinstance(st.targets[0], ast.Subscript) and isinstance(st.targets[0].value, ast.Name):
+                        v_ = st.value
+                        none_names = {x.targets[0].id for x in walk_stmts(f.node.body) if isinstance(x, ast.Assign) and len(x.targets) == 1 and isinstance(x.targets[0], ast.Name) and isinstance(x.value, ast.Constant) and x.value.value is None}
+                        if (isinstance(v_, ast.Constant) and v_.value is None) or (isinstance(v_, ast.Name) and v_.id in none_names) or isinstance(v_, ast.IfExp):
+                            plain.discard(st.targets[0].value.id)  # a None may be stored: `D.get(k) is None` is then not `k not in D`
+                if not plain:
+                    continue
+
+                class T(ast.NodeTransformer):
+                    def visit_Compare(self, c):
+                        self.generic_visit(c)
+                        if len(c.ops) == 1 and isinstance(c.ops[0], (ast.Is, ast.IsNot)) and isinstance(c.comparators[0], ast.Constant) and c.comparators[0].value is None:
+                            g = c.left
+                            if isinstance(g, ast.Call) and isinstance(g.func, ast.Attribute) and g.func.attr == "get" and isinstance(g.func.value, ast.Name) and g.func.value.id in plain and not g.keywords and (len(g.args) == 1 or (len(g.args) == 2 and isinstance(g.args[1], ast.Constant) and g.args[1].value is None)):
+                                key = g.args[0]
+                                if all(isinstance(x, (ast.Name, ast.Attribute, ast.Constant, ast.Load, ast.Subscript, ast.Tuple)) for x in ast.walk(key)):
+                                    op = ast.NotIn() if isinstance(c.ops[0], ast.Is) else ast.In()
+                                    return ast.copy_location(ast.Compare(left=key, ops=[op], comparators=[ast.Name(id=g.func.value.id, ctx=ast.Load())]), c)
+                        return c
+
+                T().visit(f.node)
+                ast.fix_missing_locations(f.node)
 
     def _scalarise_records(self):
         """Scalar replacement of local records.  A local name that is only ever bound to a record of one fixed shape — a
@@ -2358,6 +2591,137 @@ def fuse_split_loops(func):
     return Func(func.module, func.qualname, root, func.cls, func.parent)
 
 
+def fuse_staged_loops(func):
+    """A Func in which a loop that only stages items for the loop after it
+        L = []                                 for x in S:
+        for x in S:                                A
+            A                                      if c:
+            if c: L.append(E)          ->              T = E
+        [constant / empty-list inits]                  B
+        for T in L:
+            B
+    is written as the single loop it stands for.  Conditions: L is used nowhere else; the append is the last thing the
+    producer body does on its path; neither body leaves the function or breaks; B reads a name that A writes only when T
+    binds it; A touches no name that B (or T, unless `T = E` is the identity on that name) writes; the inits in between
+    are untouched by A."""
+    import copy
+
+    changed = [False]
+
+    def rw(stmts):
+        r, w = set(), set()
+        for st in stmts:
+            for x in ast.walk(st):
+                if isinstance(x, ast.Name):
+                    (w if isinstance(x.ctx, (ast.Store, ast.Del)) else r).add(x.id)
+                if isinstance(x, (ast.Subscript, ast.Attribute)) and isinstance(x.ctx, (ast.Store, ast.Del)):
+                    b = x
+                    while isinstance(b, (ast.Subscript, ast.Attribute)):
+                        b = b.value
+                    if isinstance(b, ast.Name):
+                        w.add(b.id)
+                if isinstance(x, ast.Call) and isinstance(x.func, ast.Attribute) and x.func.attr in _MUTATORS:
+                    b = x.func.value
+                    while isinstance(b, (ast.Subscript, ast.Attribute)):
+                        b = b.value
+                    if isinstance(b, ast.Name):
+                        w.add(b.id)
+        return r, w
+
+    def leaves(stmts, allow_continue=False):
+        jumps = [j for j in own_loop_jumps(stmts) if not (allow_continue and isinstance(j, ast.Continue))]
+        return bool(jumps) or any(isinstance(x, (ast.Return, ast.Yield, ast.YieldFrom)) for st in stmts for x in ast.walk(st))
+
+    def tail_sites(body):
+        """(list, index) of the statements in tail position of a body: its last statement, and recursively the last
+        statement of each arm when that is an `if`"""
+        if not body:
+            return []
+        last = body[-1]
+        if isinstance(last, ast.If):
+            return tail_sites(last.body) + tail_sites(last.orelse)
+        return [(body, len(body) - 1)]
+
+    uses = {}
+    for x in ast.walk(func.node):
+        if isinstance(x, ast.Name):
+            uses[x.id] = uses.get(x.id, 0) + 1
+
+    def block(stmts):
+        stmts = list(stmts)
+        for st in stmts:
+            for fld in ("body", "orelse", "finalbody"):
+                lst = getattr(st, fld, None)
+                if isinstance(lst, list) and lst and isinstance(lst[0], ast.stmt) and not isinstance(st, (ast.FunctionDef, ast.AsyncFunctionDef, ast.ClassDef)):
+                    setattr(st, fld, block(lst))
+            if isinstance(st, ast.Try):
+                for h in st.handlers:
+                    h.body = block(h.body)
+        i = 0
+        while i + 2 < len(stmts) + 0:
+            a, p = stmts[i], stmts[i + 1]
+            ok = isinstance(a, ast.Assign) and len(a.targets) == 1 and isinstance(a.targets[0], ast.Name) and isinstance(a.value, ast.List) and not a.value.elts and isinstance(p, ast.For) and not p.orelse
+            if not ok:
+                i += 1
+                continue
+            L = a.targets[0].id
+            j = i + 2
+            inits = []
+            while j < len(stmts) and isinstance(stmts[j], ast.Assign) and len(stmts[j].targets) == 1 and isinstance(stmts[j].targets[0], ast.Name) and (isinstance(stmts[j].value, ast.Constant) or (isinstance(stmts[j].value, (ast.List, ast.Dict)) and not getattr(stmts[j].value, "elts", getattr(stmts[j].value, "keys", None)))):
+                inits.append(stmts[j])
+                j += 1
+            c = stmts[j] if j < len(stmts) else None
+            if not (isinstance(c, ast.For) and not c.orelse and isinstance(c.iter, ast.Name) and c.iter.id == L and uses.get(L) == 3):
+                i += 1
+                continue
+            sites = [(b, k) for b, k in tail_sites(p.body) if isinstance(b[k], ast.Expr) and isinstance(b[k].value, ast.Call) and norm(b[k].value.func) == f"{L}.append" and len(b[k].value.args) == 1]
+            if len(sites) != 1:
+                i += 1
+                continue
+            body, k = sites[0]
+            E = body[k].value.args[0]
+            T = c.target
+            tn = {x.id for x in ast.walk(T) if isinstance(x, ast.Name)}
+            ident = set()
+            if isinstance(T, ast.Tuple) and isinstance(E, ast.Tuple) and len(T.elts) == len(E.elts):
+                ident = {t.id for t, e in zip(T.elts, E.elts) if isinstance(t, ast.Name) and isinstance(e, ast.Name) and t.id == e.id}
+            elif isinstance(T, ast.Name) and isinstance(E, ast.Name) and T.id == E.id:
+                ident = {T.id}
+            if isinstance(T, ast.Tuple) and not (isinstance(E, ast.Tuple) and len(T.elts) == len(E.elts)):
+                i += 1
+                continue
+            saved = body[k]
+            body[k] = ast.Pass()
+            r1, w1 = rw(p.body)
+            body[k] = saved
+            pt = {x.id for x in ast.walk(p.target) if isinstance(x, ast.Name)}
+            it = {x.id for x in ast.walk(p.iter) if isinstance(x, ast.Name)}
+            r2, w2 = rw(c.body)
+            w2 = w2 - tn
+            a_touch = r1 | w1 | pt | it
+            init_names = {x.targets[0].id for x in inits}
+            ok = not leaves(p.body) and not leaves(c.body, allow_continue=True)
+            ok = ok and ((w1 | pt) & r2) <= tn and not ((tn - ident) & a_touch) and not (w2 & a_touch) and not (init_names & a_touch) and L not in (r2 | w2 | tn)
+            ok = ok and not any(isinstance(x, (ast.Lambda, ast.FunctionDef)) for st in p.body + c.body for x in ast.walk(st))
+            if not ok:
+                i += 1
+                continue
+            bind = []
+            if not (tn <= ident and len(tn) == (len(T.elts) if isinstance(T, ast.Tuple) else 1)):
+                bind = [ast.copy_location(ast.Assign(targets=[copy.deepcopy(T)], value=E, lineno=saved.lineno), saved)]
+            body[k : k + 1] = bind + c.body
+            stmts[i : j + 1] = inits + [p]
+            changed[0] = True
+        return stmts
+
+    root = copy.deepcopy(func.node)
+    root.body = block(root.body)
+    if not changed[0]:
+        return func
+    ast.fix_missing_locations(root)
+    return Func(func.module, func.qualname, root, func.cls, func.parent)
+
+
 def inline_identity_calls(repo, func):
     """A Func in which a call `f(x)` of a program function whose whole body is `return <its parameter>` is written `x`."""
     import copy
@@ -2397,6 +2761,7 @@ def desugar_dict_get(func):
             stored[n.id] = stored.get(n.id, 0) + 1
     cands = {}
     for name, ds in defs.items():
+        ds = [d_ for d_ in ds if d_ is not None] if stored.get(name, 0) == 1 else ds  # (a field of the entry updated in place is not a rebinding)
         if len(ds) != 1 or ds[0] is None or stored.get(name, 0) != 1 or name in func.params:
             continue
         d = ds[0]
